@@ -13,7 +13,7 @@ def docs_grammar(rnd, n):
     """tag-soup documents with randomised lexical detail"""
     names = ['a', 'DIV', 'x:y', 'p1', 'b-c']
     def attr():
-        nm = rnd.choice(['k', 'CLASS', 'data-x', 'x:k', 'k2'])
+        nm = rnd.choice(['k', 'CLASS', 'data-x', 'x:k', 'k2', 'caf\u00e9', 'cafe\u0301', 'a\u00b7b', '@e', '\u4e2d'])
         sp = rnd.choice([' ', '  ', '\n ', '\t'])
         form = rnd.randrange(5)
         if form == 0:
